@@ -38,6 +38,9 @@ pub enum Op {
         writes: Vec<Res>,
         rt: u8,
         kind: Kind,
+        /// dependency names passed verbatim in addition to `deps` (C18 plants unknown names here)
+        #[serde(default)]
+        extra_deps: Vec<String>,
     },
     Barrier,
     Batch {
@@ -48,6 +51,8 @@ pub enum Op {
         ctl: Ctl,
         rt: u8,
         inner: Vec<Op>,
+        #[serde(default)]
+        extra_deps: Vec<String>,
     },
     Tl {
         reads: Vec<Res>,
@@ -271,6 +276,7 @@ fn compile_builder(
                 writes,
                 rt,
                 kind,
+                ..
             } => {
                 let idx = flat.sys.len();
                 let (reads, writes) = match kind {
@@ -318,6 +324,7 @@ fn compile_builder(
                 ctl,
                 rt,
                 inner,
+                ..
             } => {
                 let idx = flat.sys.len();
                 let (reads, writes) = family_access(*decl);
@@ -582,6 +589,7 @@ fn gen_builder(
                 ctl,
                 rt,
                 inner,
+                extra_deps: vec![],
             });
             continue;
         }
@@ -607,6 +615,7 @@ fn gen_builder(
             writes,
             rt,
             kind,
+            extra_deps: vec![],
         });
     }
     ops
@@ -642,7 +651,7 @@ fn remove_op(ops: &[Op], i: usize) -> Vec<Op> {
 
 pub fn simplify_plan(ops: &[Op]) -> Vec<Vec<Op>> {
     let mut out: Vec<Vec<Op>> = vec![];
-    // remove halves, then single ops
+    // remove the second half, then single ops (last first)
     if ops.len() >= 4 {
         let mut a = ops.to_vec();
         for i in (ops.len() / 2..ops.len()).rev() {
@@ -654,158 +663,143 @@ pub fn simplify_plan(ops: &[Op]) -> Vec<Vec<Op>> {
         out.push(remove_op(ops, i));
     }
     for (i, op) in ops.iter().enumerate() {
-        let mut push = |new: Op| {
-            let mut v = ops.to_vec();
-            v[i] = new;
-            out.push(v);
-        };
+        let mut variants: Vec<Op> = vec![];
         match op {
             Op::Sys {
-                name,
                 deps,
                 reads,
                 writes,
                 rt,
                 kind,
+                extra_deps,
+                ..
             } => {
                 for k in 0..deps.len() {
-                    let mut d = deps.clone();
-                    d.remove(k);
-                    push(Op::Sys {
-                        name: name.clone(),
-                        deps: d,
-                        reads: reads.clone(),
-                        writes: writes.clone(),
-                        rt: *rt,
-                        kind: kind.clone(),
-                    });
+                    let mut o = op.clone();
+                    if let Op::Sys { deps, .. } = &mut o {
+                        deps.remove(k);
+                    }
+                    variants.push(o);
+                }
+                for k in 0..extra_deps.len() {
+                    let mut o = op.clone();
+                    if let Op::Sys { extra_deps, .. } = &mut o {
+                        extra_deps.remove(k);
+                    }
+                    variants.push(o);
                 }
                 for k in 0..reads.len() {
-                    let mut d = reads.clone();
-                    d.remove(k);
-                    push(Op::Sys {
-                        name: name.clone(),
-                        deps: deps.clone(),
-                        reads: d,
-                        writes: writes.clone(),
-                        rt: *rt,
-                        kind: kind.clone(),
-                    });
+                    let mut o = op.clone();
+                    if let Op::Sys { reads, .. } = &mut o {
+                        reads.remove(k);
+                    }
+                    variants.push(o);
                 }
                 for k in 0..writes.len() {
-                    let mut d = writes.clone();
-                    d.remove(k);
-                    push(Op::Sys {
-                        name: name.clone(),
-                        deps: deps.clone(),
-                        reads: reads.clone(),
-                        writes: d,
-                        rt: *rt,
-                        kind: kind.clone(),
-                    });
+                    let mut o = op.clone();
+                    if let Op::Sys { writes, .. } = &mut o {
+                        writes.remove(k);
+                    }
+                    variants.push(o);
                 }
                 if *rt != 3 {
-                    push(Op::Sys {
-                        name: name.clone(),
-                        deps: deps.clone(),
-                        reads: reads.clone(),
-                        writes: writes.clone(),
-                        rt: 3,
-                        kind: kind.clone(),
-                    });
+                    let mut o = op.clone();
+                    if let Op::Sys { rt, .. } = &mut o {
+                        *rt = 3;
+                    }
+                    variants.push(o);
                 }
                 if let Kind::Static(k) = kind {
                     let (r, w) = family_access(*k);
-                    push(Op::Sys {
-                        name: name.clone(),
-                        deps: deps.clone(),
-                        reads: r,
-                        writes: w,
-                        rt: *rt,
-                        kind: Kind::Dyn,
-                    });
+                    let mut o = op.clone();
+                    if let Op::Sys {
+                        reads,
+                        writes,
+                        kind,
+                        ..
+                    } = &mut o
+                    {
+                        *reads = r;
+                        *writes = w;
+                        *kind = Kind::Dyn;
+                    }
+                    variants.push(o);
                 }
             }
             Op::Batch {
-                name,
                 deps,
                 decl,
                 ctl,
                 rt,
                 inner,
+                extra_deps,
+                ..
             } => {
                 for cand in simplify_plan(inner) {
-                    push(Op::Batch {
-                        name: name.clone(),
-                        deps: deps.clone(),
-                        decl: *decl,
-                        ctl: ctl.clone(),
-                        rt: *rt,
-                        inner: cand,
-                    });
+                    let mut o = op.clone();
+                    if let Op::Batch { inner, .. } = &mut o {
+                        *inner = cand;
+                    }
+                    variants.push(o);
                 }
                 for k in 0..deps.len() {
-                    let mut d = deps.clone();
-                    d.remove(k);
-                    push(Op::Batch {
-                        name: name.clone(),
-                        deps: d,
-                        decl: *decl,
-                        ctl: ctl.clone(),
-                        rt: *rt,
-                        inner: inner.clone(),
-                    });
+                    let mut o = op.clone();
+                    if let Op::Batch { deps, .. } = &mut o {
+                        deps.remove(k);
+                    }
+                    variants.push(o);
+                }
+                for k in 0..extra_deps.len() {
+                    let mut o = op.clone();
+                    if let Op::Batch { extra_deps, .. } = &mut o {
+                        extra_deps.remove(k);
+                    }
+                    variants.push(o);
                 }
                 if *decl != 0 {
-                    push(Op::Batch {
-                        name: name.clone(),
-                        deps: deps.clone(),
-                        decl: 0,
-                        ctl: ctl.clone(),
-                        rt: *rt,
-                        inner: inner.clone(),
-                    });
+                    let mut o = op.clone();
+                    if let Op::Batch { decl, .. } = &mut o {
+                        *decl = 0;
+                    }
+                    variants.push(o);
                 }
                 if *ctl != (Ctl::Custom { n: 1 }) {
-                    push(Op::Batch {
-                        name: name.clone(),
-                        deps: deps.clone(),
-                        decl: *decl,
-                        ctl: Ctl::Custom { n: 1 },
-                        rt: *rt,
-                        inner: inner.clone(),
-                    });
+                    let mut o = op.clone();
+                    if let Op::Batch { ctl, .. } = &mut o {
+                        *ctl = Ctl::Custom { n: 1 };
+                    }
+                    variants.push(o);
                 }
                 if *rt != 3 {
-                    push(Op::Batch {
-                        name: name.clone(),
-                        deps: deps.clone(),
-                        decl: *decl,
-                        ctl: ctl.clone(),
-                        rt: 3,
-                        inner: inner.clone(),
-                    });
+                    let mut o = op.clone();
+                    if let Op::Batch { rt, .. } = &mut o {
+                        *rt = 3;
+                    }
+                    variants.push(o);
                 }
             }
             Op::Tl { reads, writes } => {
                 for k in 0..reads.len() {
-                    let mut d = reads.clone();
-                    d.remove(k);
-                    push(Op::Tl {
-                        reads: d,
-                        writes: writes.clone(),
-                    });
+                    let mut o = op.clone();
+                    if let Op::Tl { reads, .. } = &mut o {
+                        reads.remove(k);
+                    }
+                    variants.push(o);
                 }
                 for k in 0..writes.len() {
-                    let mut d = writes.clone();
-                    d.remove(k);
-                    push(Op::Tl {
-                        reads: reads.clone(),
-                        writes: d,
-                    });
+                    let mut o = op.clone();
+                    if let Op::Tl { writes, .. } = &mut o {
+                        writes.remove(k);
+                    }
+                    variants.push(o);
                 }
             }
             Op::Barrier => {}
+        }
+        for v in variants {
+            let mut n = ops.to_vec();
+            n[i] = v;
+            out.push(n);
         }
     }
     out
